@@ -572,6 +572,13 @@ def b_dict(eng, args, kwargs, node, fr):
     v = eng.force(args[0])
     if isinstance(v, VDict):
         return eng.new_dict(eng.state.dicts[v.did].copy())
+    if isinstance(v, VList) and eng.state.lists[v.lid].items is None and eng.state.lists[v.lid].make_elem is not None:
+        # dict(list of pairs): later pairs replace earlier ones with the same key.  Modelled as an opaque mapping whose items() is a NEW
+        # abstract list of pairs of the same type and of at most the same length (an over-approximation: any pairs), carrying none of
+        # the facts known or later established about the elements of the original list
+        o = VOpaque("dictof-list")
+        o.src_list = v
+        return o
     raise OutOfSubset("dict()", node)
 
 
@@ -1184,6 +1191,15 @@ def opaque_method(eng, recv, attr, args, kwargs, node, fr):
             return vals[0] if len(vals) == 1 else VTuple(vals)
         if attr == "end":
             return VInt(recv.end)
+    if tag == "dictof-list" and attr == "items" and getattr(recv, "src_list", None) is not None:
+        src = eng.state.lists[recv.src_list.lid]
+        ln = eng.fresh_int("nitems")
+        eng.assume(z3.And(ln.t >= 0, ln.t <= src.length))
+        eng.assume(z3.Implies(src.length >= 1, ln.t >= 1))
+        m = ListModel(None, ln.t, src.make_elem, [], "dict-items")
+        if hasattr(src, "elem_ty"):
+            m.elem_ty = src.elem_ty
+        return eng.new_list(m)
     spec = eng.reg.demonic.get(tag + "." + attr)
     if spec is not None:
         return call_env(eng, spec, recv, tag + "." + attr, args, kwargs, node, fr)
